@@ -530,7 +530,14 @@ func runC14E1(rep *Report, tier string) {
 	validateFixture(fx)
 	cases := casesFor(fx.Pkgs, cfgs, "")
 	// every case: 1 + Repeat generations in one process (fresh Mocker each) ...
-	pool := NewPool(nproc(), fx.Env)
+	var env []string
+	for _, e := range fx.Env {
+		if !strings.HasPrefix(e, "GOMAXPROCS=") {
+			env = append(env, e) // goroutine-order nondeterminism would be hidden with one P
+		}
+	}
+	env = append(env, "GOMAXPROCS=4")
+	pool := NewPool(nproc(), env)
 	reqs := make([]GenReq, len(cases))
 	for i, c := range cases {
 		reqs[i] = c.req(fx)
